@@ -138,11 +138,17 @@ structure Resp where
   status : Nat
   rpcErr : Bool                  -- X-VGI-RPC-Error: true
   batches : List RBatch
+  header : List RBatch := []     -- the header IPC stream of an /init answer (logs, then the header batch)
   deriving Repr, DecidableEq
 
+/-- `dyn`: minted by the dynamic method; `declared`: the call declared an input schema that the
+transport can see at turn time (static exchange methods: always, from the registration; dynamic
+ones: when `StreamResult.InputSchema` was set — carried in the call token). -/
 structure Cursor where
   call : Nat
   st : SState
+  dyn : Bool := false
+  declared : Bool := true
   deriving Repr, DecidableEq
 
 /-- `minted`: the cursors handed out so far (all remain openable: the servers are stateless);
@@ -187,6 +193,8 @@ structure Req where
   md : Meta
   vals : List Int := []
   schemaOk : Bool := true        -- input batch schema equal / castable to the declared one
+  exact : Bool := true           -- input batch schema EQUAL to the stream's input schema
+  dynamic : Bool := false        -- the method named by the URL is the dynamic one (no registered schemas)
   env : Env := {}
   deriving Repr, DecidableEq
 
@@ -253,12 +261,23 @@ def defaultExchangeTick : Tick := [.emit (.input 0) [] true]
 
 def tickAt (st : SState) : Option Tick := st.prog[st.pos]?
 
+/-- the scripted `Exchange` refuses an input column that is not of its declared type -/
+def untypedTick : Tick := [.fail 77]
+
+/-- does the handler get an input of its declared type: the batch already has it, or the transport
+cast it (it casts whenever it knows an input schema) -/
+def inputTyped (cur : Cursor) (req : Req) : Bool := req.exact || cur.declared
+
+/-- the program the `Exchange` call of this turn runs -/
+def turnTick (cur : Cursor) (req : Req) : Tick :=
+  if inputTyped cur req then (tickAt cur.st).getD defaultExchangeTick else untypedTick
+
 def advance (cur : Cursor) (pos : Nat) : Cursor := { cur with st := { cur.st with pos := pos } }
 
 /-- `handleExchangeCall`. -/
 def exchangeCall (cfg : Cfg) (w : World) (cur : Cursor) (req : Req) : Resp × World × List Event :=
   let ev := Event.exchange cur.st.pos (stripFramework req.md) req.vals
-  let tick := (tickAt cur.st).getD defaultExchangeTick
+  let tick := turnTick cur req
   let te := req.env.ticks.headD {}
   match runActs req.vals (Coll.new false) tick with
   | (_, some e) => (errResp 200 true e, w, [ev])
@@ -385,57 +404,95 @@ def resolveCall (cfg : Cfg) (w : World) (inst : Nat) (cur : Cursor) (callTok : O
       else .error .badCall
     | some _ => .error .badCall
 
-/-- `handleStreamExchange` after authentication, routing and body decoding. The cast gate only
-exists for exchange methods (`info.InputSchema != nil`). A cursor resumes only the method that
-minted it (`tokenData.Method != method || !streamStateFits(...)` → 400); the scripted family has
-one method per stream kind, so "same method" is "same kind". -/
+/-- `handleStreamExchange` after authentication, routing and body decoding.
+
+* static exchange methods cast against the registered input schema before any token is looked at
+  (skipped on cancel); producer methods never cast;
+* a cursor resumes only the method that minted it (`tokenData.Method != method ||
+  !streamStateFits(...)` → 400): the scripted family has one static method per stream kind plus
+  one dynamic method;
+* dynamic exchange streams cast against the input schema the call declared (carried in the call
+  token), once the call is resolved. -/
 def handleExchange (cfg : Cfg) (w : World) (req : Req) : Resp × World × List Event :=
   let tok := getFirst keyState req.md
   let callTok := getFirst keyCall req.md
   let cancelled := (getFirst keyCancel req.md).isSome
-  if !cancelled && !req.routeProducer && !req.schemaOk then (errResp 400 false .cast, w, [])
+  if !cancelled && !req.dynamic && !req.routeProducer && !req.schemaOk then (errResp 400 false .cast, w, [])
   else match tok with
     | none => (errResp 400 false .missingToken, w, [])
     | some tv =>
       match openCursor w tv with
       | none => (errResp 400 false .badToken, w, [])
       | some cur =>
-        if req.routeProducer != cur.st.producer then (errResp 400 false .wrongMethod, w, [])
+        if req.dynamic != cur.dyn || req.routeProducer != cur.st.producer then
+          (errResp 400 false .wrongMethod, w, [])
         else match resolveCall cfg w req.inst cur callTok with
         | .error e => (errResp 400 false e, w, [])
         | .ok w1 =>
           if cancelled then cancelTurn w1 cur
           else if req.routeProducer then producerContinuation cfg w1 cur req
+          else if req.dynamic && cur.declared && !req.exact && !req.schemaOk then
+            (errResp 400 false .cast, w1, [])
           else exchangeCall cfg w1 cur req
 
 /-! ### Stream init (`POST /{method}/init`), after the method handler returned its state -/
 
+inductive InitOutcome
+  | ok | fail (code : Nat) | panic (code : Nat)
+  deriving Repr, DecidableEq
+
+/-- One `/init` call of a scripted stream method: what the method handler logs and returns, and how
+the method was registered. -/
 structure InitReq where
   inst : Nat := 0
   st : SState
-  md : Meta := []       -- the init request's custom metadata rendered in key order
+  md : Meta := []              -- the init request's custom metadata rendered in key order
   env : Env := {}
+  logs : List Nat := []        -- `callCtx.ClientLog` calls of the method handler
+  outcome : InitOutcome := .ok
+  hasHeader : Bool := false    -- the method was registered with a header type
+  header : Option Nat := none  -- `StreamResult.Header` (nil or a value)
+  dynamic : Bool := false      -- the dynamic method (kind decided by the returned state)
+  declared : Bool := true      -- an input schema is declared (static exchange: always)
   deriving Repr, DecidableEq
 
 def cachePut (cfg : Cfg) (w : World) (inst call : Nat) : World :=
   if cfg.cacheOn then { w with cache := (inst, call) :: w.cache } else w
 
+/-- the header stream `writeStreamHeader` writes: the init logs, then the header batch -/
+def headerStream (rq : InitReq) : List RBatch :=
+  match rq.hasHeader, rq.header with
+  | true, some h => rq.logs.map RBatch.log ++ [.data [h] []]
+  | _, _ => []
+
+/-- the init logs still buffered when the data stream opens (the header stream drained them) -/
+def initLogs (rq : InitReq) : List RBatch :=
+  match rq.hasHeader, rq.header with
+  | true, some _ => []
+  | _, _ => rq.logs.map RBatch.log
+
+/-- `handleStreamInit` from the call of the method handler on. -/
 def handleInit (cfg : Cfg) (w : World) (rq : InitReq) : Resp × World × List Event :=
-  let c := w.calls
-  let w0 := { w with calls := w.calls + 1 }   -- used only when the call id leaves the server
-  let cur : Cursor := { call := c, st := rq.st }
-  let tokMeta : Meta := [(keyState, .cursor w.minted.length), (keyCall, .call c)]
-  if rq.st.producer then
-    let r := produceLoop cfg (rq.st.prog.drop rq.st.pos) rq.st.pos (some rq.md) 0 0 rq.env.ticks
-      rq.env.body0 rq.env.sizes
-    if r.err.isNone && !r.finished then
-      ({ status := 200, rpcErr := false, batches := r.out ++ [.token tokMeta] },
-       cachePut cfg { w0 with minted := w0.minted ++ [advance cur r.pos] } rq.inst c, r.events)
+  match rq.outcome with
+  | .fail k => (errResp 200 true (.handler k), w, [])
+  | .panic k => (errResp 200 true (.panic k), w, [])
+  | .ok =>
+    let c := w.calls
+    let w0 := { w with calls := w.calls + 1 }   -- used only when the call id leaves the server
+    let cur : Cursor := { call := c, st := rq.st, dyn := rq.dynamic, declared := rq.declared }
+    let tokMeta : Meta := [(keyState, .cursor w.minted.length), (keyCall, .call c)]
+    if rq.st.producer then
+      let r := produceLoop cfg (rq.st.prog.drop rq.st.pos) rq.st.pos (some rq.md) 0 0 rq.env.ticks
+        rq.env.body0 rq.env.sizes
+      if r.err.isNone && !r.finished then
+        ({ status := 200, rpcErr := false, batches := initLogs rq ++ r.out ++ [.token tokMeta], header := headerStream rq },
+         cachePut cfg { w0 with minted := w0.minted ++ [advance cur r.pos] } rq.inst c, r.events)
+      else
+        ({ status := 200, rpcErr := producerRpcErr r.err, batches := initLogs rq ++ r.out, header := headerStream rq },
+         w, r.events)
     else
-      ({ status := 200, rpcErr := producerRpcErr r.err, batches := r.out }, w, r.events)
-  else
-    ({ status := 200, rpcErr := false, batches := [.token tokMeta] },
-     cachePut cfg { w0 with minted := w0.minted ++ [cur] } rq.inst c, [])
+      ({ status := 200, rpcErr := false, batches := initLogs rq ++ [.token tokMeta], header := headerStream rq },
+       cachePut cfg { w0 with minted := w0.minted ++ [cur] } rq.inst c, [])
 
 /-! ### What a turn uploads; the whole stream of a producer state -/
 
@@ -443,7 +500,7 @@ def handleInit (cfg : Cfg) (w : World) (rq : InitReq) : Resp × World × List Ev
 when the handler succeeded, the pre-flight passed and the batch qualifies (the post-flush check
 comes after the upload) -/
 def exchangeUploads (cfg : Cfg) (cur : Cursor) (req : Req) : Nat :=
-  let tick := (tickAt cur.st).getD defaultExchangeTick
+  let tick := turnTick cur req
   let te := req.env.ticks.headD {}
   match runActs req.vals (Coll.new false) tick with
   | (_, some _) => 0
@@ -454,7 +511,7 @@ def exchangeUploads (cfg : Cfg) (cur : Cursor) (req : Req) : Nat :=
 
 /-- raw bytes an exchange turn uploads -/
 def exchangeCharged (cfg : Cfg) (cur : Cursor) (req : Req) : Nat :=
-  let tick := (tickAt cur.st).getD defaultExchangeTick
+  let tick := turnTick cur req
   let te := req.env.ticks.headD {}
   match runActs req.vals (Coll.new false) tick with
   | (_, some _) => 0
